@@ -403,19 +403,21 @@ impl FileSpec {
         files
             .iter()
             .filter(|path| {
-                // if suffix is specified, it must match
-                if let Some(suffix) = o_suffix {
-                    path.extension().is_some_and(|ext| {
-                        let s = ext.to_string_lossy();
-                        s == suffix
-                    })
-                } else {
-                    true
-                }
-            })
-            .filter(|path| {
-                // infix filter must pass
-                let stem = path.file_stem().unwrap(/* CANNOT FAIL*/).to_string_lossy();
+                let Some(file_name) = path.file_name() else {
+                    return false;
+                };
+                let name = file_name.to_string_lossy();
+                // if suffix is specified, the name must end with it
+                // (the suffix may contain dots, and so may the rest of the name)
+                let stem: &str = match o_suffix {
+                    Some(suffix) => {
+                        match name.strip_suffix(suffix).and_then(|s| s.strip_suffix('.')) {
+                            Some(s) => s,
+                            None => return false,
+                        }
+                    }
+                    None => &name,
+                };
                 // the stem of a compressed file still ends with the suffix of the log files
                 let stem: &str = match (o_suffix, self.o_suffix.as_deref()) {
                     (Some("gz"), Some(sfx)) if sfx != "gz" => {
